@@ -241,6 +241,7 @@ def run_limited_transfers(res: dict, params: dict, check_bound):
         events['changes'].append(('up', 0, t_start, up_limit * 1024))
         events['changes'].append(('dn', 0, t_start, dn_limit * 1024))
         seq = [0]
+        keep: list = []     # keeps limiter objects alive so that id() stays unique
 
         # observation points: payload bytes written by the uploader on file
         # connections (tap), bytes handed to the downloader by receive_data (hook)
@@ -251,17 +252,43 @@ def run_limited_transfers(res: dict, params: dict, check_bound):
         orig_receive_data = cm.PeerConnection.receive_data
         orig_send_data = cm.PeerConnection.send_data
 
+        # which limiter object served the calling task last, and when that call started: a call that is in
+        # flight when the limit changes is served by the limiter it started on
+        import aioslsk.network.rate_limiter as rl
+        last_grant: dict = {}
+        orig_take = {}
+
+        def wrap_take(cls):
+            orig = orig_take[cls] = cls.take_tokens
+
+            async def take_tokens(self):
+                seq0 = seq[0]
+                n = await orig(self)
+                last_grant[asyncio.current_task()] = (self, seq0)
+                return n
+            cls.take_tokens = take_tokens
+        for cls in (rl.LimitedRateLimiter, rl.UnlimitedRateLimiter):
+            wrap_take(cls)
+
+        def granted_by(conn_limiter):
+            lim, seq0 = last_grant.get(asyncio.current_task(), (conn_limiter, seq[0]))
+            return lim, seq0
+
         async def receive_data(self, n_bytes):
+            lim, seq0 = granted_by(self.download_rate_limiter)
             data = await orig_receive_data(self, n_bytes)
             if data and self.network is dnc.network:
                 seq[0] += 1
-                events['dn_reads'].append((seq[0], w.loop.time(), len(data), id(self.download_rate_limiter), self.download_rate_limiter.limit_bps))
+                keep.append(lim)
+                events['dn_reads'].append((seq[0], w.loop.time(), len(data), id(lim), lim.limit_bps, seq0))
             return data
 
         async def send_data(self, data):
             if self.network is upc.network:
+                lim, seq0 = granted_by(self.upload_rate_limiter)
                 seq[0] += 1
-                events['up_writes'].append((seq[0], w.loop.time(), len(data), id(self.upload_rate_limiter), self.upload_rate_limiter.limit_bps))
+                keep.append(lim)
+                events['up_writes'].append((seq[0], w.loop.time(), len(data), id(lim), lim.limit_bps, seq0))
             return await orig_send_data(self, data)
 
         cm.PeerConnection.receive_data = receive_data
@@ -297,6 +324,8 @@ def run_limited_transfers(res: dict, params: dict, check_bound):
         finally:
             cm.PeerConnection.receive_data = orig_receive_data
             cm.PeerConnection.send_data = orig_send_data
+            for cls, orig in orig_take.items():
+                cls.take_tokens = orig
         await w.stop_clients()
         return result
 
